@@ -164,6 +164,23 @@ def run(tier, seed, rng):
     psrc += ("class Plain(Packet):\n    n = Int(1, default=7)\n    m = Int(2, default=515)\n"
              "class SelD(Packet):\n    t = Int(1)\n    a = Ref(t.chooses({3: Plain(), 4: Int(2)}), default=Plain(n=9))\n    z = Int(1, default=1)\n"
              "class SelL(Packet):\n    t = Int(1)\n    a = Ref(lambda pkt, **k: Plain() if pkt.t == 3 else Int(2), default=Plain(m=2))\n")
+    # a described field that reaches a class through Ref(.., embed=True): keywords naming it override it, others leave it computed
+    for k, conf in (('EmbG', '{}'), ('EmbL', "{'generate_for_pack': False, 'generate_for_unpack': False}")):
+        psrc += f"class {k}(Packet):\n    __bisturi__ = {conf}\n    magic = Int(1, default=202)\n    body = Ref(Chunk, embed=True)\n    crc = Int(1)\n"
+    ecases, ewant = [], []
+    for k in ('EmbG', 'EmbL'):
+        for kw, (ln, pl) in (("", (3, b'abc')), ("length=5", (5, b'abc')), ("length=0", (0, b'abc')), ("payload=b'zz'", (2, b'zz')),
+                             ("length=7, payload=b'q'", (7, b'q')), ("crc=9, length=1", (1, b'abc')), ("payload=b''", (0, b''))):
+            crc = 9 if 'crc=9' in kw else 0
+            ecases.append(dict(cls=k, op='default', value={"py": f"(lambda p: [p.magic, p.length, p.payload, p.crc])({k}({kw}))"}))
+            ewant.append([202, ln, {"x": pl.hex()}, crc])
+            ecases.append(dict(cls=k, op='pack', value={"py": f"{k}({kw})"}))
+            ewant.append((bytes([202, ln]) + pl + bytes([crc])).hex())
+    eres = run_impl(os.path.join(VERIF, 'harness', 'impl_pkt.py'), dict(header=decl.HEADER_PY, blocks=[dict(name='protos', src=psrc)], modname='c19e', cases=ecases))
+    for c, o, w in zip(ecases, eres['outcomes'], ewant):
+        if o.get('ok') != w:
+            failures.append(dict(kind='oracle', sig='defaults-embedded-descriptor', what='a packet that embeds (embed=True) a packet with a described field: the constructed packet does not hold the declared defaults / the keyword values',
+                                 classes=psrc, cls=c['cls'], case=c['value'], observed=o, required=w))
     scases = [dict(cls='SelD', op='default', value={"py": "[SelD().a.n, SelD().a.m, SelD().z, SelD().a is not SelD().a]"}),
               dict(cls='SelD', op='pack', value={"py": "SelD()"}),
               dict(cls='SelL', op='default', value={"py": "[SelL().a.n, SelL().a.m, SelL().a is not SelL().a]"}),
@@ -191,7 +208,7 @@ def run(tier, seed, rng):
         if not ok:
             failures.append(dict(kind='oracle', sig='defaults-prototype-descriptor', what=f"the default of Ref(Chunk({'length=%s' % pin if pin is not None else ''})) is not a copy of the prototype: its described field 'length' must read / pack {want_len}",
                                  classes=psrc, cls=c['cls'], observed=o))
-    dist = dict(constructed=0, with_keywords=0, pack_compared=0, falsy_keywords=falsy_checked, after_mutation=after, prototype_descriptor_cases=len(pcases))
+    dist = dict(constructed=0, with_keywords=0, pack_compared=0, falsy_keywords=falsy_checked, after_mutation=after, prototype_descriptor_cases=len(pcases), embedded_descriptor_cases=len(ecases))
     recs = [r for r in records if r['kind'] in ('default', 'pack') and r.get('tag') != 'falsy']
     it = iter(recs)
     for (gid, c, kw) in meta:
